@@ -61,7 +61,7 @@ def sc_asl(src, opts=(), name="a", extra_disk=None, **kw):
     env.update(kw.pop("env", {}))
     # diagnostics go to an unbuffered stream: one event per line.  The event budget must cover the largest legitimate
     # output (REPT 70000 x 6 erroneous statements), so that only genuinely endless runs hit it.
-    sc = dict(argv=["-q", "-i", "/sim/inc"] + list(opts) + ["%s.asm" % name], cwd="/w", disk=disk, env=env, max_events=1400000, cpu=60)
+    sc = dict(argv=["-q", "-i", "/sim/inc"] + list(opts) + ["%s.asm" % name], cwd="/w", disk=disk, env=env, max_events=1400000, cpu=30)
     sc.update(kw)
     return sc
 
@@ -169,6 +169,17 @@ INNERS = ["\texitm", "\tshift", "\trestore", "\tsave", "\tdephase", "\tendm", "\
 CLOSERS = ["", "\tendm\n", "\tendif\n", "\tends\n", "\tendsection\n", "\tendcase\n", "\tendm\n\tendm\n"]
 
 
+BIG_COUNTS = {"70000", "65536", "68000", "2147483648", "9223372036854775807", "1<<63", "[70000]1"}
+
+
+def tame(op, arg):
+    """Repetition counts stay small: a REPT of 2^31 iterations legitimately runs for hours (the property speaks of time
+    proportional to the work described), and symbol-table growth per iteration is quadratic without -A."""
+    if op.upper() in ("REPT", "IRPN", "WHILE") and arg.split(",")[0] in BIG_COUNTS:
+        return ",".join(["3000"] + arg.split(",")[1:])
+    return arg
+
+
 def gen_vocab_program(rng, n_stmt):
     cpu = rng.choice(CPUS)
     lines = ["\tcpu %s" % cpu]
@@ -178,7 +189,7 @@ def gen_vocab_program(rng, n_stmt):
         if rng.chance(0.25):
             arg = arg + "," + rng.choice(ARGS)
         lab = rng.choice(["", "", "lab", "x", ".l", "$$t", "lab:", "1x"])
-        lines.append("%s\t%s\t%s" % (lab, op if rng.chance(0.8) else op.lower(), arg))
+        lines.append("%s\t%s\t%s" % (lab, op if rng.chance(0.8) else op.lower(), tame(op, arg)))
     src = "\n".join(lines) + "\n" + rng.choice(CLOSERS)
     return src
 
@@ -565,8 +576,12 @@ def run_case(sim, case):
             src = b"\n".join(lines[:n]) + (b"\n" if n else b"")
             sc = dict(argv=list(t.flags) + ["-q", "-i", "/sim/inc", "/w/cut.asm", "-o", "/w/cut.p", "-shareout", "/w/cut.h"],
                       cwd="/sim/tests/" + t.name, disk={"/w/cut.asm": src},
-                      env={"LANG": "C", "ASL_VERIF_MAX_LINES": "3000000"})
-            run_one(sim, acc, "asl", sc, "E5 %s cut at line %d" % (t.name, n), "source-eof")
+                      env={"LANG": "C", "ASL_VERIF_MAX_LINES": "3000000" if len(t.src) > 200000 else "600000"}, cpu=40)
+            r, san, cls = run_one(sim, acc, "asl", sc, "E5 %s cut at line %d" % (t.name, n), "source-eof")
+            if cls and "hang" in cls and may_not_terminate(src):
+                acc.violations = [v for v in acc.violations if v["class"] != cls]
+                acc.seen_cls.discard(cls)
+                acc.bump(acc.probes, "hang_ignored_while_or_recursive_macro")
         acc.sample = {"space": "E5", "test": case["test"], "cut_lines": case["lines"][:5]}
     elif g == "mutsrc":
         rng = Rng(case["seed"])
@@ -601,7 +616,7 @@ def run_case(sim, case):
             sc = dict(argv=list(t.flags) + ["-q", "-i", "/sim/inc"] + swarm_opts(rng, 0.05)
                       + ["/w/mut.asm", "-o", "/w/mut.p", "-shareout", "/w/mut.h"],
                       cwd="/sim/tests/" + t.name, disk={"/w/mut.asm": bytes(s)},
-                      env={"LANG": "C", "ASL_VERIF_MAX_LINES": "3000000"}, max_disk=32 << 20)
+                      env={"LANG": "C", "ASL_VERIF_MAX_LINES": "400000"}, max_disk=32 << 20, cpu=30)
             r, san, cls = run_one(sim, acc, "asl", sc, "E6 %s %s" % (t.name, ",".join(desc)), "source-mutation")
             has_loop = may_not_terminate(bytes(s))
             if cls and "hang" in cls and has_loop:
@@ -612,7 +627,7 @@ def run_case(sim, case):
         acc.sample = {"space": "E6", "n": case["n"]}
     elif g in ("vocab1", "vocab1s"):
         def one(ci, pi, ai, labelled):
-            src = "\tcpu %s\n%s\t%s\t%s\n" % (CPUS[ci], "lab" if labelled else "", PSEUDO[pi], ARGS[ai])
+            src = "\tcpu %s\n%s\t%s\t%s\n" % (CPUS[ci], "lab" if labelled else "", PSEUDO[pi], tame(PSEUDO[pi], ARGS[ai]))
             run_one(sim, acc, "asl", sc_asl(src), "E7 single %s %s %r" % (CPUS[ci], PSEUDO[pi], ARGS[ai]), "vocabulary")
         if g == "vocab1":
             for idx in range(case["lo"], case["hi"]):
@@ -710,8 +725,8 @@ def run_case(sim, case):
 def minimise(sim, case, vclass):
     """Shrink an explicit source scenario: drop lines (ddmin), then options; tool inputs are kept as is."""
     from ..sim import scenario_from_json
-    if case.get("kind") != "explicit" or case["prog"] != "asl":
-        return case
+    if case.get("kind") != "explicit" or case["prog"] != "asl" or "/hang/" in vclass:
+        return case  # (every test of a hang costs the whole budget: keep the case as found)
     sc = scenario_from_json(case["scenario"])
     srcs = [p for p in sc.get("disk", {}) if p.endswith(".asm")]
     if len(srcs) != 1:
